@@ -456,6 +456,13 @@ func genC15(tier string, r *Rng, emit func(Case)) {
 	if tier == "thorough" {
 		n = 2500
 	}
+	genPlanted(n, r, emit)
+	genC15Rest(n, r, emit)
+}
+
+// genPlanted: searches that must stop at their answer, on counted endless sources (also run under C06: a search is an
+// operation whose highest delivered position is the end of its last reported match)
+func genPlanted(n int, r *Rng, emit func(Case)) {
 	plantsAt := []int{0, 1, 50, 98, 99, 100, 101, 102, 199, 200, 201, 650, 1200, 2300, 5150}
 	for i := 0; i < n; i++ {
 		ver := allVers[i%3]
@@ -534,6 +541,9 @@ func genC15(tier string, r *Rng, emit func(Case)) {
 		t.i(cnt)
 		emit(Case{Ver: ver, Op: "Find", Args: t})
 	}
+}
+
+func genC15Rest(n int, r *Rng, emit func(Case)) {
 	// v3: asking for n <= 0 matches consults nothing, on every kind of sequence (endless, a bounded view of an
 	// endless Number, a finite Number, a window with a start)
 	for i := 0; i < n/3+12; i++ {
